@@ -248,6 +248,11 @@ func init() {
 							Input: "strings.Map(func(ch) { for i := 0; i < n; i++ {}; return ch }, s) on several VMs, one aborted (conc.AbortIsolation)", Sig: "C08:abort-leaks-to-other-vm"})
 					}
 					c.Count("abort-isolation-probe")
+					if pr := conc.HostArgsProbe(); pr != "" {
+						c.Violation(PropViolation{Property: "C08", What: "VMs that are handed the same argument slice influence each other: " + pr,
+							Input: "param ...xs; xs[0] = xs[0] + \"!\"; xs = append(xs, 1); return xs   (conc.HostArgsProbe)", Sig: "C08:host-args-shared"})
+					}
+					c.Count("host-args-probe")
 				}
 				if leak := conc.PrivacyProbe("strings", concurrent); leak != "" {
 					c.Violation(PropViolation{Property: "C08", What: "a builtin module value is shared between VMs: " + leak,
